@@ -33,6 +33,7 @@ def get_case(cs):
                      cs.get("fixed", False))
         c.prepare()
         c.cid = cid
+        c.ref_cap = cs.get("ref_cap", REF_CAP)
         CTX["cases"][cid] = c
     return c
 
@@ -44,8 +45,8 @@ def get_ref(case):
     if r is not None:
         return r
     ref = {}
-    res = lcd.run_analysis(case, 1, -1, Chooser(seed=0), threshold=10 ** 9, max_steps=REF_CAP,
-                           parent_cost=0.0)
+    res = lcd.run_analysis(case, 1, -1, Chooser(seed=0), threshold=10 ** 9,
+                           max_steps=getattr(case, "ref_cap", REF_CAP), parent_cost=0.0)
     if res.harness:
         raise res.harness
     if res.out is not None and not res.aborted:
